@@ -5,6 +5,8 @@ f2_0:
   ret
   call f9_0
   call f19_0
+  mov wvsv1@GOTPCREL(%rip),%rax
+  mov wvsv0(%rip),%rax
   ret
 .section .text.f2_1,"ax",@progbits
 .globl f2_1
@@ -13,6 +15,7 @@ f2_1:
   ret
   call f21_0
   lea d_f2_1(%rip),%rax
+  mov wvsv2(%rip),%rax
   ret
 .section .data.d_f2_1,"aw",@progbits
 .globl d_f2_1
